@@ -42,7 +42,9 @@ def _one(args):
     import importlib
 
     mod = importlib.import_module(modname)
-    v = next(x for x in mod.variants() if x.name == vname)
+    from .variants import global_benign_variants
+
+    v = next(x for x in list(mod.variants()) + global_benign_variants() if x.name == vname)
     try:
         new_sources = v.apply(sources)
     except Exception as e:  # a broken variant script is a checker bug
@@ -64,6 +66,10 @@ def run(mod, prog: Program, rep: engine.Reporter, tier: str, seed: int) -> Dict:
     variants = list(mod.variants()) if hasattr(mod, "variants") else []
     if tier == "quick":
         variants = [v for v in variants if v.quick]
+    elif variants and not os.environ.get("SA_NO_GLOBAL_VARIANTS"):
+        from .variants import global_benign_variants
+
+        variants = variants + global_benign_variants()  # whole-package equivalences (thorough tier)
     base = {(o.rule, o.func, o.key) for o in rep.obligations if not o.ok}
     base_rules = sorted((o.rule, o.func) for o in rep.obligations if not o.ok)
     results = []
